@@ -788,7 +788,7 @@ class _PrfFns(dict):
         return f
 
 
-def find_witness(a, b, trials=12, seed=0):
+def find_witness(a, b, trials=12, seed=0, budget=6000000):
     """Search an assignment of the inputs on which the two graphs evaluate differently.
     Returns dict(inputs, index, got, expected) or None.  (Graphs only; never repository code.)"""
     if len(a) != len(b):
@@ -799,22 +799,28 @@ def find_witness(a, b, trials=12, seed=0):
         widths[n] = max(widths.get(n, 0), i + 1)
     rnd = random.Random(seed)
     cases = []
+    cases.append({n: rnd.getrandbits(w) for n, w in widths.items()})
     cases.append({n: 0 for n in widths})
     cases.append({n: (1 << w) - 1 for n, w in widths.items()})
-    for _ in range(trials):
+    for _ in range(trials - 1):
         cases.append({n: rnd.getrandbits(w) for n, w in widths.items()})
     for _ in range(4):
         # sparse / boundary style values
         cases.append({n: rnd.choice([0, 1, (1 << w) - 1, 1 << (w - 1), rnd.getrandbits(w)]) for n, w in widths.items()})
-    for env in cases:
+    spent = 0
+    for nth, env in enumerate(cases):
+        if nth >= 2 and spent > budget:
+            break                   # huge graphs: a few assignments only (the verdict stays "undecided")
         try:
             ev = Evaluator(env, _PrfFns())
             for i, (x, y) in enumerate(zip(a, b)):
                 if x == y:
                     continue
                 if ev.bit(x) != ev.bit(y):
+                    spent += len(ev.memo)
                     return {"inputs": {k: hex(v) for k, v in sorted(env.items()) if not k.startswith("cpu.") or True},
                             "index": i, "got": ev.bit(x), "expected": ev.bit(y)}
         except (ValueError, KeyError, RecursionError):
             return None
+        spent += len(ev.memo)
     return None
